@@ -261,10 +261,40 @@ def run(tier, seed):
             elif want != got:
                 ck.fail(f"C28 diagnostics differ for {text[:80]!r}", f"publishDiagnostics {got[:4]} differs from garden check --json {want[:4]} for {text[:80]!r}",
                         {"cmd": "garden lsp / garden check --json", "src": text, "lsp": got, "check": want})
+    # ---- binding demonstration: corrupted copies of accepted traces must be rejected
+    import copy
+    rejected = tried = 0
+    for s, msgs, events, diags, ok, res, un, rc in results[:12]:
+        if not ok:
+            continue
+        resp = [i for i, e in enumerate(events) if e.get("ev") == "recv" and e.get("kind") == "response" and e.get("id")]
+        dg = [i for i, e in enumerate(events) if e.get("ev") == "recv" and e.get("kind") == "diagnostics"]
+        variants = []
+        if resp:
+            c = copy.deepcopy(events)
+            del c[resp[0]]
+            variants.append(("a response dropped", c))
+            c = copy.deepcopy(events)
+            c.insert(resp[0] + 1, copy.deepcopy(events[resp[0]]))
+            variants.append(("a response duplicated", c))
+            c = copy.deepcopy(events)
+            c[resp[-1]]["id"] = c[resp[-1]]["id"] + "9"
+            variants.append(("a response with another id", c))
+        if dg:
+            c = copy.deepcopy(events)
+            c[dg[0]]["text"] = "t999"
+            variants.append(("diagnostics for another text", c))
+        for name, c in variants[:2] if tried >= 6 else variants:
+            tried += 1
+            ok2, _, _ = validate(c, f"c28-corrupt-{s}-{tried}")
+            if ok2:
+                raise ToolError(f"binding is vacuous: a corrupted LSP trace ({name}, seed {s}) was accepted by LspTrace")
+            rejected += 1
+    vacuity(tried >= 6, "no corrupted LSP trace could be built")
     vacuity(ndiag > n, f"only {ndiag} publishDiagnostics payloads were compared")
     ck.assumptions += ["diagnostics are compared by range (UTF-16 columns) and severity with `garden check --json`; message texts are not compared",
                        "the server is single threaded, so trace validation is linear; requests are sent one at a time"]
-    return ck.finish(rule="seeded sequences of 6-14 messages: initialize, didOpen / didChange / didClose over 17 hostile texts and 12 generated programs, every request method at in-range and out-of-range positions and on never-opened documents, unknown methods, malformed params, unknown notifications, shutdown / exit endings; every scenario distinct")
+    return ck.finish(rule="seeded sequences of 6-14 messages: initialize, didOpen / didChange / didClose over 17 hostile texts and 12 generated programs, every request method at in-range and out-of-range positions and on never-opened documents, unknown methods, malformed params, unknown notifications, shutdown / exit endings; every scenario distinct; corrupted copies of accepted traces (dropped / duplicated / re-identified responses, diagnostics for another text) must be rejected", extra={"corrupted_traces_rejected": rejected})
 
 
 def replay(rec):
